@@ -70,6 +70,17 @@ def lay1(ctx, c):
             c.finding("translate_statements:%s" % name, "iterates %s" % it, "the %s pass iterates %s instead of all of self.statements in order" % (name, it), repo.loc(fn, st))
         else:
             c.undecided("translate_statements:%s" % name, "iteration-shape-not-recognised", it or type(st).__name__, repo.loc(fn, st))
+    # no pass stops before the last statement
+    for name in [n_ for n_, _ in PHASES if n_ in pos]:
+        st = pos[name][1]
+        if isinstance(st, ast.For) and "statements" in U(st.iter):
+            inner = [x for x in ast.walk(st) if isinstance(x, (ast.For, ast.While)) and x is not st]
+            exits = [x for x in ast.walk(st) if isinstance(x, (ast.Break, ast.Return)) and not any(x in list(ast.walk(i)) for i in inner)]
+            if exits:
+                c.finding("translate_statements:%s:early-exit" % name, "the %s pass leaves its loop early" % name,
+                          "the %s pass stops at `%s` instead of visiting every statement: what the statements after that point define or need is ignored"
+                          % (name, U(next((p_ for p_ in ast.walk(st) if isinstance(p_, ast.If) and any(e is x for e in exits for x in ast.walk(p_))), exits[0]))[:70].split("\n")[0]),
+                          repo.loc(fn, exits[0]))
     # the fix-up pass hands each statement its own position: a position looked up by value finds the first EQUAL statement
     # (Statement defines __eq__ over a few fields), which is another statement whenever two lines read alike
     if "address fix-up" in pos:
@@ -140,6 +151,14 @@ def lay1(ctx, c):
         if isinstance(inner, ast.Attribute) and inner.attr == "int" or (isinstance(inner, ast.Compare) and U(inner.left).endswith(".int") and try_fold(inner.comparators[0]) == 0):
             c.finding("Statement.set_address:preset-test", "preset address recognised by the truthiness of its value (%s)" % U(t_),
                       "Statement.set_address decides whether an address was already set (ORG) by `%s`: an ORG at $0000 is a preset address too, but is taken for 'not set'" % U(t_), repo.loc(sa, gnode))
+    for n_ in ast.walk(sa.node):
+        if isinstance(n_, ast.Assign) and U(n_.targets[0]).endswith("code_pkg.address") and isinstance(n_.value, ast.Call) and n_.value.args:
+            a0 = n_.value.args[0]
+            masked = [x for x in ast.walk(a0) if isinstance(x, ast.BinOp) and isinstance(x.op, (ast.BitAnd, ast.Mod))]
+            if masked:
+                c.finding("Statement.set_address:wrap", "the address is reduced before it is stored (%s)" % U(a0)[:40],
+                          "Statement.set_address stores `%s`: a program that runs past $FFFF is no longer rejected, its listing addresses and labels wrap around to $0000 while the "
+                          "image keeps growing" % U(a0), repo.loc(sa, n_))
     txt = U(sa.node)
     good = re.search(r"if not self\.code_pkg\.address\.is_none\(\):\s+return self\.code_pkg\.address\.int", txt) and \
         re.search(r"self\.code_pkg\.address = NumericValue\(address\)\s+return self\.code_pkg\.address\.int", txt)
@@ -328,8 +347,74 @@ def exp1(ctx, c):
                 k = try_fold(x.right, ctx.env)
                 if isinstance(k, int) and k > 0x1F and (k & (k + 1)) != 0 and k not in (0xC0, 0x60, 0x80):
                     c.undecided("%s:mask" % f.q, "mask %#x is not of the form 2^n - 1" % k, "", repo.loc(f, x))
+    # ExpressionValue.resolve evaluated for every operator x (symbol | literal) on either side: both symbols are looked up under their own names,
+    # the result is NumericValue(left op right) with truncating division, at a width the result fits
+    from ..concrete import Obj as _O, ClsRef as _C, Desc as _D, run_concrete as _run, show as _show
+    from ..inline import flatten as _flx
+    flat_res = _flx(repo, fn, depth=2, only={m_ for m_ in repo.cls("ExpressionValue").methods if m_ not in ("get_symbol",)})
+    preds = {m_ for cl_ in ("Value", "NumericValue", "SymbolValue", "ExpressionValue") if repo.has_cls(cl_) for m_ in repo.cls(cl_).methods if m_.startswith("is_")}
+    evaluated = 0
+    ev_problems = []
+    ev_notes = []
+    for opch, pyop in (("+", lambda a, b: a + b), ("-", lambda a, b: a - b), ("*", lambda a, b: a * b), ("/", lambda a, b: int(a / b))):
+        for lk in ("symbol", "numeric"):
+            for rk in ("symbol", "numeric"):
+                lv, rv = 300, 7
+
+                def mk(kind, name, value):
+                    o = _O("SymbolValue" if kind == "symbol" else "NumericValue", label="<%s %s>" % (kind, name))
+                    o.attrs.update({"kind": kind, "name": name, "int": value})
+                    return o
+                lo_, ro_ = mk(lk, "L", lv), mk(rk, "R", rv)
+                table = {"L": mk("numeric", "value-of-L", lv), "R": mk("numeric", "value-of-R", rv)}
+                hooks = {("*", p_): (lambda r, a, _p=p_: (r.attrs.get("kind") == {"is_symbol": "symbol", "is_numeric": "numeric"}.get(_p)) if _p in ("is_symbol", "is_numeric") else False)
+                         for p_ in preds}
+                hooks[("*", "ascii")] = lambda r, a: r.attrs.get("name")
+                hooks[("self", "get_symbol")] = lambda a: table.get(a[0], _D("get_symbol(%r)" % (a[0],))) if a and isinstance(a[0], str) and not isinstance(a[0], _D) else _D("get_symbol(?)")
+                envx = dict(ctx.env)
+                for cn in ("NumericValue", "ExtendedNumericValue", "DirectNumericValue", "AddressValue"):
+                    envx[cn] = _C(cn)
+                envx.update({"self.left": lo_, "self.right": ro_, "self.operation": opch, "self.original_value": "L%sR" % opch, "self.resolved": False})
+                evs, nts = [], []
+                end = _run(body_without_doc(flat_res), envx, evs, nts, hooks=hooks)
+                evaluated += 1
+                ev_notes += nts
+                want = pyop(lv, rv)
+                looked = [e[4][0] for e in evs if e[0] == "call" and e[2] == "get_symbol" and e[4]]
+                want_looked = (["L"] if lk == "symbol" else []) + (["R"] if rk == "symbol" else [])
+                site_cfg = "%s %s %s" % (lk, opch, rk)
+                if looked != want_looked:
+                    ev_problems.append(("lookups", "for %s the symbols looked up are %s (operands L and R, symbols: %s)" % (site_cfg, looked, want_looked)))
+                    continue
+                res = envx.get("$return")
+                if not (isinstance(res, _O) and res.cls.endswith("NumericValue") and getattr(res, "args", None)):
+                    if end and end.startswith("raise"):
+                        ev_problems.append(("result", "%s ends in %s" % (site_cfg, end)))
+                    else:
+                        ev_notes.append("result of %s is %s" % (site_cfg, _show(res)))
+                    continue
+                a0 = res.args[0]
+                got = int(a0) if isinstance(a0, str) and not isinstance(a0, _D) and a0.lstrip("-").isdigit() else (a0 if isinstance(a0, int) else None)
+                if got != want:
+                    ev_problems.append(("value:%s" % opch, "%d %s %d gives %s (expected %d)" % (lv, opch, rv, _show(a0), want)))
+                hint = res.attrs.get("size_hint")
+                if isinstance(hint, int) and want >= 0 and 16 ** hint <= want:
+                    ev_problems.append(("width", "the result %d of %d %s %d is pinned to %d hex digit(s)" % (want, lv, opch, rv, hint)))
+    resolved_by_evaluation = not ev_notes
+    if resolved_by_evaluation:
+        seenp = set()
+        for kind_, text_ in ev_problems:
+            if kind_ in seenp:
+                continue
+            seenp.add(kind_)
+            c.finding("ExpressionValue.resolve:%s" % kind_, text_[:110], "ExpressionValue.resolve, evaluated for operand kinds and operators: %s" % text_, where)
+        for kind_ in ("lookups", "width"):
+            if kind_ not in seenp:
+                c.ok("ExpressionValue.resolve:%s" % kind_, "decided by evaluation of %d configurations" % evaluated, where)
     # both operands are looked up when both are symbols
     try:
+        if resolved_by_evaluation:
+            raise PathCap("decided above")
         outs = Interp(fn.node).run()
         both = [o for o in outs if "self.left.is_symbol()" in o.path.true_atoms()]
         tested_right = [o for o in both if any(strip_ver(a).startswith("self.right.is_symbol()") for a, _ in o.path.conds)]
@@ -344,7 +429,8 @@ def exp1(ctx, c):
             c.check(srcs == {"self.%s.ascii()" % side}, "ExpressionValue.resolve:lookup-%s" % side, "looked up by its own name", "looked up by %s" % sorted(srcs),
                     "the %s operand is replaced by the symbol named %s" % (side, sorted(srcs)), where)
     except PathCap as e:
-        c.undecided("ExpressionValue.resolve:lookups", "path-cap", str(e), where)
+        if not resolved_by_evaluation:
+            c.undecided("ExpressionValue.resolve:lookups", "path-cap", str(e), where)
     # division by zero inside resolve is wrapped by the statement-level handler (ESC covers); calculate_address_offset
     cao = repo.method("ExpressionValue", "calculate_address_offset", inherited=False)
     t = U(cao.node)
@@ -484,6 +570,26 @@ def dir1(ctx, c):
         good = repr(kw.get("size")) == "<self.value.byte_len()>" and repr(kw.get("additional")) == "<self.value>"
         c.check(good, "PseudoOperand.translate:FCC", "size = byte_len() of the string emitted", "size=%r additional=%r" % (kw.get("size"), kw.get("additional")),
                 "FCC: size must be the byte length of the string emitted", where)
+    # the operand text of a data directive reaches the value classes as written: a case change alters character literals ('a -> 'A)
+    pi = repo.method("PseudoOperand", "__init__", inherited=False)
+    opname = [p_ for p_ in pi.params if p_ != "self"][0]
+    casey = {}
+    for n_ in ast.walk(pi.node):
+        if isinstance(n_, ast.Assign) and isinstance(n_.targets[0], ast.Name):
+            for x in ast.walk(n_.value):
+                if isinstance(x, ast.Call) and isinstance(x.func, ast.Attribute) and x.func.attr in ("upper", "lower", "casefold", "title", "swapcase", "capitalize") \
+                        and (U(x.func.value) == opname or U(x.func.value) == "self.operand_string"):
+                    casey[n_.targets[0].id] = x
+    for n_ in ast.walk(pi.node):
+        if isinstance(n_, ast.Call) and U(n_.func) in ("MultiByteValue", "MultiWordValue", "Value.create_from_str", "StringValue") and n_.args:
+            a0 = n_.args[0]
+            direct = [x for x in ast.walk(a0) if isinstance(x, ast.Call) and isinstance(x.func, ast.Attribute) and x.func.attr in ("upper", "lower", "casefold", "title", "swapcase", "capitalize")]
+            via = [casey[x.id] for x in ast.walk(a0) if isinstance(x, ast.Name) and x.id in casey]
+            if direct or via:
+                c.finding("PseudoOperand.__init__:operand-case", "the operand text is case-changed before it is parsed (%s)" % U((direct or via)[0])[:40],
+                          "PseudoOperand.__init__ hands `%s` to %s: character literals and strings in the operand change case with it (FCB 'a emits 41)" % (U((direct or via)[0]), U(n_.func)),
+                          repo.loc(pi, n_))
+                break
     # list element widths
     for cls, w in (("MultiByteValue", 2), ("MultiWordValue", 4)):
         f = repo.method(cls, "__init__", inherited=False)
@@ -595,9 +701,64 @@ def dir1(ctx, c):
                   "PseudoOperand.resolve_symbols returns self unchanged: FCB LABEL emits 00, FDB E,L raises, and an undefined symbol in a data directive is accepted silently", repo.loc(rs, rs.node))
     else:
         c.ok("PseudoOperand.resolve_symbols", "resolves", repo.loc(rs, rs.node))
-    # EQU width tagging by spelling
+    # EQU width tagging by spelling: PseudoOperand.__init__ evaluated for one constant (16) written six ways; which value class the EQU ends up
+    # holding is the width tag that ExpressionValue.resolve later propagates
     init = repo.method("PseudoOperand", "__init__", inherited=False)
-    if re.search(r"operand_string\.startswith\('\$'\) and len\(self\.operand_string\) > 3", U(init.node)):
+    from ..concrete import Obj as _O2, ClsRef as _C2, Desc as _D2, run_concrete as _run2
+    from .wid import fold_constructor as _fc, fold_method as _fm
+    from ..consteval import Raised as _Rz, NotConst as _Nz
+    eff_rows, _dups = ctx.effective_rows()
+    tag_table = {}
+    tag_notes = []
+    if "EQU" in eff_rows:
+        for spelling in ("$10", "$0010", "16", "%00010000", "$5", "5", "'A"):
+            ins = _O2("Instruction", label="<EQU>")
+            ins.attrs.update(dict(eff_rows["EQU"].flags))
+            ins.attrs["mnemonic"] = "EQU"
+            ins.attrs.setdefault("is_16_bit", False)
+
+            def mkval(avals, _sp=spelling):
+                text = avals[0] if avals and isinstance(avals[0], str) and not isinstance(avals[0], _D2) else _sp
+                try:
+                    st_ = _fc(ctx, "NumericValue", {"value": text, "size_hint": None, "mode": ctx.env.get("ExplicitAddressingMode.EXTENDED")})
+                except (_Rz, _Nz):
+                    return _D2("Value.create_from_str(%s)" % text)
+                o = _O2("NumericValue", label="<NumericValue %s>" % text)
+                o.attrs.update({k[5:]: v for k, v in st_.items() if isinstance(k, str) and k.startswith("self.")})
+                return o
+
+            def hexlen(r, avals):
+                if r.cls != "NumericValue":
+                    return _D2("%r.hex_len()" % r)
+                return _fm(ctx, "NumericValue", "hex_len", {"self.int": r.attrs.get("int"), "self.size_hint": r.attrs.get("size_hint"), "self.negative": r.attrs.get("negative", False)})
+            envq = dict(ctx.env)
+            for cn in ("ExtendedNumericValue", "DirectNumericValue", "NoneValue", "MultiByteValue", "MultiWordValue", "OperandTypeError"):
+                envq[cn] = _C2(cn)
+            ps = [p_ for p_ in init.params if p_ != "self"]
+            envq.update({ps[0]: spelling, ps[1]: ins})
+            evq, ntq = [], []
+            try:
+                _run2(body_without_doc(init.node), envq, evq, ntq, hooks={("Value", "create_from_str"): mkval, ("*", "hex_len"): hexlen})
+            except Exception as e_:
+                ntq.append(repr(e_)[:60])
+            tag_notes += ntq
+            v_ = envq.get("self.value")
+            tag_table[spelling] = v_.cls if isinstance(v_, _O2) else "?"
+    kinds_seen = sorted(set(tag_table.values()))
+    if tag_table and not tag_notes and "?" not in kinds_seen:
+        if len(kinds_seen) > 1:
+            byclass = ", ".join("%s -> %s" % (k, v.replace("NumericValue", "") or "plain") for k, v in tag_table.items())
+            baseline = {"$10": "DirectNumericValue", "$0010": "ExtendedNumericValue", "16": "NumericValue", "%00010000": "DirectNumericValue", "$5": "NumericValue", "5": "NumericValue",
+                        "'A": "NumericValue"}
+            fact = "EQU width tagged by the spelling of the constant" if tag_table == baseline else "EQU width tag follows the spelling or magnitude of the constant: %s" % byclass
+            c.finding("PseudoOperand.__init__:EQU", fact,
+                      "EQU tags its value as 16-bit when it is written with $ and more than two digits, and ExpressionValue.resolve propagates the tag: E EQU $0010 / LDA #E+1 gives 86 00 11"
+                      if tag_table == baseline else
+                      "an EQU constant ends up in a different value class depending on how it is written (%s); ExpressionValue.resolve takes the width of an expression from those classes, so "
+                      "`LDD #COUNT+1` is a byte or a word depending on the spelling or size of COUNT" % byclass, repo.loc(init, init.node))
+        else:
+            c.ok("PseudoOperand.__init__:EQU", "every spelling of a constant gives the same value class", repo.loc(init, init.node))
+    elif re.search(r"operand_string\.startswith\('\$'\) and len\(self\.operand_string\) > 3", U(init.node)):
         c.finding("PseudoOperand.__init__:EQU", "EQU width tagged by the spelling of the constant",
                   "EQU tags its value as 16-bit when it is written with $ and more than two digits, and ExpressionValue.resolve propagates the tag: E EQU $0010 / LDA #E+1 gives 86 00 11",
                   repo.loc(init, init.node))
@@ -653,6 +814,11 @@ def inc1(ctx, c):
     else:
         c.undecided("process_mnemonics:path", "SourceFile-call-not-found", "", where)
     rec = [n for n in ast.walk(loop) if isinstance(n, ast.Call) and U(n.func).endswith("process_mnemonics")]
+    dropped = [n for n in ast.walk(loop) if isinstance(n, ast.Expr) and n.value in rec]
+    if dropped:
+        c.finding("process_mnemonics:recursion-result", "the result of the recursive expansion is discarded",
+                  "process_mnemonics calls itself on the included file's statements as a statement of its own (`%s`): the expansion returns a new list, which is thrown away, so INCLUDEs "
+                  "inside an included file are never expanded" % U(dropped[0])[:70], repo.loc(fn, dropped[0]))
     if not rec:
         c.finding("process_mnemonics:recursion", "no recursive expansion", "process_mnemonics does not expand INCLUDEs inside an included file", where)
     else:
@@ -687,6 +853,35 @@ def inc1(ctx, c):
         c.finding("process_mnemonics:diagnostics", "a missing file or an inclusion cycle is not turned into a diagnostic",
                   "process_mnemonics opens the included file outside any handler and recurses without a visited set: a missing file ends in FileNotFoundError and a file that includes itself in RecursionError",
                   where)
+    # Program.parse keeps every statement that is neither empty nor a comment: nothing else is filtered out (an INCLUDE repeated is included twice)
+    pp = repo.method("Program", "parse")
+    for lp in [n for n in ast.walk(pp.node) if isinstance(n, ast.For)]:
+        skips = [x for x in ast.walk(lp) if isinstance(x, (ast.Continue, ast.Break))]
+        guards = []
+        for x in ast.walk(lp):
+            if isinstance(x, ast.If) and any(isinstance(y, ast.Call) and isinstance(y.func, ast.Attribute) and y.func.attr == "append" for b in x.body for y in ast.walk(b)):
+                conj = x.test.values if isinstance(x.test, ast.BoolOp) and isinstance(x.test.op, ast.And) else [x.test]
+                guards += [U(v) for v in conj if not re.fullmatch(r"not \w+\.(is_empty|is_comment_only)", U(v))]
+        if skips or guards:
+            why = U(next((p_ for p_ in ast.walk(lp) if isinstance(p_, ast.If) and any(s_ is y for s_ in skips for y in ast.walk(p_))), lp))[:80].split("\n")[0] if skips else guards[0]
+            c.finding("Program.parse:filter", "statements other than blank lines and comments are dropped",
+                      "Program.parse leaves out statements under `%s`: every statement of the text, INCLUDEs named twice included, belongs to the program" % why, repo.loc(pp, lp))
+        else:
+            c.ok("Program.parse:filter", "keeps every statement that is not blank or a comment", repo.loc(pp, lp))
+    # INCLUDE operands are resolved against the directory the assembler was started in: nobody changes it
+    for rel_ in ("assembler.py",):
+        try:
+            fm = repo.func(rel_, "main")
+        except Exception:
+            fm = None
+        if fm is not None:
+            ch = [x for x in ast.walk(fm.module.tree) if isinstance(x, ast.Call) and U(x.func) in ("os.chdir", "chdir")]
+            if ch:
+                c.finding("%s:chdir" % rel_, "the working directory is changed before assembling",
+                          "%s calls %s: INCLUDE operands are opened as written, i.e. relative to the directory the assembler was started in; after the change they name "
+                          "other files (or none)" % (rel_, U(ch[0])[:60]), "%s:%d" % (rel_, ch[0].lineno))
+            else:
+                c.ok("%s:chdir" % rel_, "the working directory is left alone", rel_)
     # the handler around the read catches every way a path can fail to open (missing, a directory, not permitted): OSError
     NARROW = {"FileNotFoundError", "PermissionError", "IsADirectoryError", "NotADirectoryError", "FileExistsError"}
     WIDE = {"OSError", "IOError", "EnvironmentError", "Exception", "BaseException"}
@@ -791,23 +986,23 @@ def txt1(ctx, c):
     exp = try_fold(vmod.assigns["EXPRESSION_REGEX"].args[0]) if "EXPRESSION_REGEX" in vmod.assigns else None
     if sym and exp:
         srx, erx = re.compile(sym), re.compile(exp)
-        probes = ["AB", "A1", "A@B", "A_B", "ÉT"]
-        lab_ok = [p for p in probes if (rx.match(p + " NOP\n") and rx.match(p + " NOP\n").group("label") == p)]
-        sym_ok = [p for p in probes if srx.match(p)]
-        exp_ok = [p for p in probes if erx.match(p + "+1")]
-        d1 = sorted(set(lab_ok) - set(sym_ok))
-        d2 = sorted(set(sym_ok) - set(exp_ok))
-        if d1:
-            c.finding("charset:label-vs-symbol", "labels %s can be defined but not referenced" % d1,
-                      "the line pattern accepts labels %s which SYMBOL_REGEX rejects as operands (A_B NOP / JMP A_B is rejected)" % d1, vmod.rel)
-        else:
-            c.ok("charset:label-vs-symbol", "every definable label is referencable", vmod.rel)
-        if d2:
-            c.finding("charset:symbol-vs-expression", "symbols %s cannot be used in expressions" % d2,
-                      "SYMBOL_REGEX accepts %s which EXPRESSION_REGEX rejects as a term (LDX #A@B+1 is rejected)" % d2, vmod.rel)
-        else:
-            c.ok("charset:symbol-vs-expression", "every symbol can be an expression term", vmod.rel)
-
+        # one probe per kind of name; a finding is keyed by the kind, not by the probe list
+        kinds = [("letters", "AB"), ("letters and digits", "A1"), ("a leading digit", "1ST"), ("an at sign", "A@B"), ("an underscore", "A_B"), ("a non-ASCII letter", "ÉT")]
+        for kind, p_ in kinds:
+            lab = bool(rx.match(p_ + " NOP\n") and rx.match(p_ + " NOP\n").group("label") == p_)
+            symok = bool(srx.match(p_))
+            expok = bool(erx.match(p_ + "+1"))
+            if lab and not symok:
+                c.finding("charset:label-vs-symbol:%s" % kind, "a label with %s can be defined but not referenced" % kind,
+                          "the line pattern accepts the label %s, which SYMBOL_REGEX rejects as an operand (%s NOP is accepted, JMP %s is rejected): renaming a label to such a name "
+                          "breaks the program" % (p_, p_, p_), vmod.rel)
+            elif lab:
+                c.ok("charset:label-vs-symbol:%s" % kind, "definable and referencable", vmod.rel)
+            if symok and not expok:
+                c.finding("charset:symbol-vs-expression:%s" % kind, "a symbol with %s cannot be used in an expression" % kind,
+                          "SYMBOL_REGEX accepts %s, which EXPRESSION_REGEX rejects as a term (LDX #%s+1 is rejected)" % (p_, p_), vmod.rel)
+            elif symok:
+                c.ok("charset:symbol-vs-expression:%s" % kind, "usable as an expression term", vmod.rel)
 
 
 def txt2(ctx, c):
@@ -839,4 +1034,37 @@ def txt2(ctx, c):
     else:
         c.ok("ASM_LINE_REGEX:fields-are-text", "every field of a matching line is a string", "%s:%d" % (mod.rel, node.lineno))
 
-RULES = {"TXT-2": txt2, "LAY-0": lay0, "LAY-1": lay1, "LAY-3": lay3, "EXP-1": exp1, "DIR-1": dir1, "INC-1": inc1, "TXT-1": txt1}
+
+def exp2(ctx, c):
+    """EXP-2 (C12 only: C04 allows reduction modulo 65536) no arithmetic result is silently wrapped before the range check of NumericValue."""
+    repo = ctx.repo
+    found = False
+    # a result is not reduced modulo 2^16 / 2^8 before it reaches NumericValue, whose range check is the only one these expressions have
+    for m in repo.cls("ExpressionValue").methods.values():
+        for x in ast.walk(m.node):
+            if isinstance(x, ast.BinOp) and isinstance(x.op, (ast.BitAnd, ast.Mod)):
+                k = try_fold(x.right, ctx.env)
+                arith = any(isinstance(y, ast.BinOp) and isinstance(y.op, (ast.Add, ast.Sub, ast.Mult, ast.Div, ast.FloorDiv)) for y in ast.walk(x.left))
+                if arith and ((isinstance(x.op, ast.BitAnd) and k in (0xFFFF, 0xFF)) or (isinstance(x.op, ast.Mod) and k in (0x10000, 0x100))):
+                    c.finding("%s:wrap" % m.q, "an arithmetic result is reduced with %s %#x" % ("&" if isinstance(x.op, ast.BitAnd) else "%", k),
+                              "%s computes `%s`: a result that does not fit the field wraps around silently ($FFFF+2 becomes 1) instead of being rejected as out of range"
+                              % (m.q, U(x)[:60]), repo.loc(m, x))
+                    found = True
+                    break
+    if not found:
+        c.ok("ExpressionValue:wrap", "no result is reduced modulo 2^8 / 2^16 before the range check", repo.cls("ExpressionValue").module.rel)
+
+
+def dir4(ctx, c):
+    """DIR-4 the part of DIR-1 that concerns symbols and constants in EQU / data directives (used by C04)."""
+    from ..report import Collector
+    tmp = ctx.cache.get(("rule", "DIR-1"))
+    if tmp is None:
+        tmp = Collector("DIR-1")
+        dir1(ctx, tmp)
+    for i in tmp.insts:
+        if i.site.startswith("PseudoOperand.__init__:EQU") or i.site.startswith("PseudoOperand.resolve_symbols") or i.site.endswith(":element-type"):
+            j = type(i)(*[getattr(i, k) for k in i.__slots__]) if hasattr(i, "__slots__") else i
+            c.insts.append(j)
+
+RULES = {"DIR-4": dir4, "EXP-2": exp2, "TXT-2": txt2, "LAY-0": lay0, "LAY-1": lay1, "LAY-3": lay3, "EXP-1": exp1, "DIR-1": dir1, "INC-1": inc1, "TXT-1": txt1}
